@@ -707,7 +707,15 @@ def _split_path(p):
     return out
 
 
+KEY_ALIASES = {}      # renamed function -> reviewed name (engine.normalise)
+
+
 def callee_key(callee):
+    k = _callee_key(callee)
+    return KEY_ALIASES.get(k, k) if KEY_ALIASES else k
+
+
+def _callee_key(callee):
     """Normalise a call-site callee for matching: strip generics, and reduce a path to its last
     two segments ('Type::method') or to the qualified form '<Type as Trait>::method' with Type and
     Trait reduced to last segments."""
